@@ -14,7 +14,9 @@ EXPLANATION = (
     "(counter bound, visited set that raises, or consumption of the link), (c) the Collection keeps no cached cell "
     "that a cell-deleting method fails to refresh, (d) appenders always terminate the chain with rdf:nil, clear "
     "removes both links of every cell, and a cell deletion is paired with a relink. Index arithmetic (negative "
-    "indices, IndexError vs KeyError, head deletion) is value reasoning and not decided."
+    "indices, IndexError vs KeyError, head deletion) is value reasoning and not decided. (l) list nodes / cells (IdentifiedNode-typed, Optional "
+    "or not) are never truth-tested either (<> is a falsy str), (m) every non-consuming rdf:rest walk raises on a revisited cell (a counter "
+    "bound alone is not enough), (n) a wildcard-predicate removal never hits a subject that may be the list node."
 )
 
 
@@ -403,3 +405,114 @@ def run(repo: Repo, rep: Report) -> None:  # noqa: F811
              and any(isinstance(r, ast.Return) for r in n.body)]
     rep.ob("C19.k-iadd-works-on-a-materialised-nonempty-input", col, "Collection.__iadd__", early[0].test if early else "if not <items>: return self", bool(early),
            "nothing to add: the graph is left alone" if early else "with an empty argument the terminator is detached and re-attached anyway: on an empty list `c += []` leaves (head rdf:rest rdf:nil) without rdf:first, after which c[0] raises KeyError", node=early[0] if early else f)
+
+
+_run_base4 = run
+
+
+def run(repo: Repo, rep: Report) -> None:  # noqa: F811
+    _run_base4(repo, rep)
+    from vlib import h_c19
+
+    col = repo.mod("rdflib.collection")
+    gr = repo.mod("rdflib.graph")
+    methods = col.methods("Collection")
+    scope = [(col, "Collection." + m, f) for m, f in methods.items()] + [(gr, "Graph.items", gr.func("Graph.items"))]
+
+    # ------------------------------------------------------------------ (l) list nodes / cells by identity
+    # (a) looks at Optional[...] values that may be a falsy Literal.  The list node and the cells are terms too: <> (URIRef(''),
+    # what a relative IRI reference to the document itself is before resolution) and BNode('') are falsy str instances.
+    rep.rule("C19.l-list-node-and-cells-by-identity",
+             "in Collection and Graph.items no expression whose static type is a term class (IdentifiedNode, URIRef, BNode, Node ..., Optional or not) is "
+             "tested by truthiness: absence of a list node / cell is `is None`. With `uri or BNode()` Collection(g, URIRef('')) silently works on a fresh "
+             "blank node instead of <>, and with `while cell:` iteration over [a, b, c] whose second cell is <> stops after a", floor=6)
+    term_classes = set(repo.typed.subclasses("rdflib.term.Node")) - set(repo.typed.subclasses("rdflib.graph.Graph"))
+    if "rdflib.term.IdentifiedNode" not in term_classes or "rdflib.term.URIRef" not in term_classes:
+        raise AnalysisError("term class hierarchy not found under rdflib.term.Node")
+
+    def term_fact(mod, e):
+        tf = repo.typed.type_of(mod.name, e)
+        if tf is None or not any(i in term_classes for i in tf.items):
+            return None
+        # sites of rule (a): Optional and able to hold a Literal - not repeated here
+        if tf.optional and truthy.domain_hits(repo, tf):
+            return None
+        return tf
+
+    for mod, q, f in scope:
+        nonec = truthy.none_constants(mod)
+        for n in own_nodes(f, include_nested=True):
+            if isinstance(n, ast.Compare) and len(n.ops) == 1 and isinstance(n.ops[0], (ast.Is, ast.IsNot, ast.Eq, ast.NotEq)):
+                l_, r_ = n.left, n.comparators[0]
+                tgt = l_ if truthy._is_none(r_, nonec) else (r_ if truthy._is_none(l_, nonec) else None)
+                tf = term_fact(mod, tgt) if tgt is not None else None
+                if tf is not None:
+                    rep.ob("C19.l-list-node-and-cells-by-identity", mod, q, n, True, "%s : %s compared with None" % (norm(tgt), tf.text), node=n)
+        seen_l: set[int] = set()
+        for e, owner, kind in truthy.bool_contexts(f):
+            if id(e) in seen_l or isinstance(e, (ast.Compare, ast.Constant)):
+                continue
+            seen_l.add(id(e))
+            tf = term_fact(mod, e)
+            if tf is None:
+                continue
+            ctx = norm(owner.test) if hasattr(owner, "test") else norm(owner)
+            rep.ob("C19.l-list-node-and-cells-by-identity", mod, q, "%s [in %s: %s]" % (norm(e), kind, ctx[:120]), False,
+                   "truthiness of %s : %s - the node <> (URIRef('')) or BNode('') is a falsy str: it is taken for `no node`" % (norm(e), tf.text), node=e)
+
+    # ------------------------------------------------------------------ (m) every walk RAISES on a cycle
+    # (b) is about termination, and a counter bound terminates - but `while i < index` alone walks round a cyclic chain and hands
+    # out a cell for every index, where len() and iteration raise.
+    rep.rule("C19.m-every-walk-raises-on-a-cycle",
+             "every loop of Collection / Graph.items that follows rdf:rest from its own cursor without consuming the link keeps a visited set and RAISES when "
+             "a cell comes up again, on every path between two steps - all readers agree with len()/iteration. A walk that is only bounded by a counter "
+             "answers c[k], c[k] = x and del c[k] for any k on a cyclic chain as if the list had that many members", floor=4)
+    n_walks = 0
+    for mod, q, f in scope:
+        g = None
+        for loop, cur in loops.link_walk_loops(f):
+            n_walks += 1
+            consumed = loops._removes_link(loop, cur)
+            if consumed:
+                rep.ob("C19.m-every-walk-raises-on-a-cycle", mod, q, "while %s: ... (%s)" % (norm(loop.test), consumed[:80]), True,
+                       "the walk deletes the link it follows: it cannot come back to a cell", node=loop)
+                continue
+            if g is None:
+                g = CFG(f)
+            ok, why = h_c19.raising_cycle_guard(g, mod, loop, cur)
+            rep.ob("C19.m-every-walk-raises-on-a-cycle", mod, q, "while %s: ... %s = rdf:rest of %s" % (norm(loop.test), cur, cur), ok,
+                   why if ok else why + ": on a cyclic rdf:rest chain this walk goes round and returns a cell (or never ends) instead of raising like len(c)", node=loop)
+    if n_walks < 4:
+        raise AnalysisError("expected >= 4 rdf:rest walks in Collection / Graph.items, found %d" % n_walks)
+
+    # ------------------------------------------------------------------ (n) the list node is never wiped
+    rep.rule("C19.n-list-node-is-never-wiped",
+             "a removal with a wildcard predicate, graph.remove((x, None, None)), in Collection only hits a cell that cannot be the list node self.uri: x is (by "
+             "def-use) the value of an rdf:rest lookup, or _get_container(k) with k > 0 established on every path. The list node is a resource of its own "
+             "(rdf:type, labels, owl:unionOf subject ...): emptying the list through it - del c[0] on a one-member list - removes rdf:first/rdf:rest only, "
+             "exactly like clear() and like del c[0] on a longer list", floor=2)
+    nonec = truthy.none_constants(col)
+    n_wipes = 0
+    n_cell_removals = 0
+    for mname, f in methods.items():
+        al = _graph_aliases(f)
+        g = None
+        for c in own_nodes(f):
+            if not (_gcall(c, al, {"remove"}) and c.args and isinstance(c.args[0], ast.Tuple) and len(c.args[0].elts) == 3):
+                continue
+            n_cell_removals += 1
+            s, p, o = c.args[0].elts
+            if not truthy._is_none(p, nonec):
+                continue
+            n_wipes += 1
+            if g is None:
+                g = CFG(f)
+            reasons = h_c19.head_possible(g, col, c, s)
+            rep.ob("C19.n-list-node-is-never-wiped", col, "Collection." + mname, c, not reasons,
+                   "%s is a successor cell / a cell at an index > 0" % norm(s) if not reasons else
+                   "%s may be the list node (%s): every statement about the list node goes, not just its rdf:first/rdf:rest - e.g. emptying [x] whose node carries "
+                   "(c.uri rdf:type T) deletes that triple too, where removing the two links leaves it" % (norm(s), "; ".join(sorted(set(reasons)))[:300]), node=c)
+    if n_cell_removals < 4:
+        raise AnalysisError("expected >= 4 graph.remove((s, p, o)) calls in Collection, found %d" % n_cell_removals)
+    if n_wipes == 0:
+        rep.ob("C19.n-list-node-is-never-wiped", col, "Collection", "no wildcard-predicate removal", True, "cells are removed link by link", node=col.cls("Collection"))
